@@ -1,3 +1,54 @@
-/- C16 — property theorems: see below (being extended). -/
+/-
+  C16 — the global epoch advances by exactly one and reclamation can progress.
+  The coordinator's `ForwardGlobalEpoch` is the instruction `fwd` of the thread-level model
+  (`Model/TClient.lean`, compared quantum by quantum with the real code): it loads the global epoch
+  `cur`, publishes `sortDescDedup ([cur+1, cur] ++ pins)` as the vector of `cur+1`, stores `cur+1` as the
+  global epoch and the vector's last element as the minimum.  Proved here, for every input:
+  the facts about those values that the property states.
+-/
+import CppUtil.Proofs.EpochSeq
 import CppUtil.Gen.Thread
-import CppUtil.Model.TClient
+
+namespace CppUtil.Props
+open CppUtil CppUtil.Epoch
+
+/-- tie G: the documented initial epoch (= the list-node capacity) and the minimum epoch -/
+theorem c16_initial : Gen.epochConsts.kInitialEpoch = Gen.epochConsts.kCapacity ∧
+    Gen.epochConsts.kInitialEpoch = 256 ∧ Gen.epochConsts.kMinEpoch = 0 := by decide
+
+/-- **min ≤ cur**: the stored minimum (last element of the published vector) never exceeds the epoch that
+    is current before the forward, hence never exceeds any later current epoch -/
+theorem c16_min_le_cur (cur : Nat) (pins : List Nat) (m : Nat)
+    (hm : (sortDescDedup ([cur + 1, cur] ++ pins)).getLast? = some m) : m ≤ cur := by
+  have hs := sortDescDedup_spec ([cur + 1, cur] ++ pins)
+  exact desc_last_le _ hs.1 m hm cur ((hs.2 cur).mpr (by simp))
+
+/-- the published vector always contains the new and the previous epoch -/
+theorem c16_contains_cur_next (cur : Nat) (pins : List Nat) :
+    cur + 1 ∈ sortDescDedup ([cur + 1, cur] ++ pins) ∧ cur ∈ sortDescDedup ([cur + 1, cur] ++ pins) := by
+  have hs := sortDescDedup_spec ([cur + 1, cur] ++ pins)
+  exact ⟨(hs.2 _).mpr (by simp), (hs.2 _).mpr (by simp)⟩
+
+/-- **a destroyed guard stops pinning**: a forward whose scan finds no pinned epoch publishes exactly
+    `[cur+1, cur]`, and the minimum becomes `cur` (= new current − 1) -/
+theorem c16_quiescent (cur : Nat) :
+    sortDescDedup ([cur + 1, cur] ++ []) = [cur + 1, cur] ∧
+    (sortDescDedup ([cur + 1, cur] ++ [])).getLast? = some cur := by
+  have := quiescent_list cur
+  simp only [List.append_nil]
+  rw [this]; simp
+
+/-- pinned epochs are at most the current epoch (an entered epoch was read from the global epoch), so the
+    head of the published vector is the new epoch -/
+theorem c16_head_is_new (cur : Nat) (pins : List Nat) (hp : ∀ p ∈ pins, p ≤ cur) :
+    (sortDescDedup ([cur + 1, cur] ++ pins)).head? = some (cur + 1) := by
+  apply published_head
+  · simp
+  · intro y hy
+    simp only [List.cons_append, List.nil_append, List.mem_cons] at hy
+    rcases hy with rfl | rfl | hy
+    · omega
+    · omega
+    · have := hp y hy; omega
+
+end CppUtil.Props
